@@ -378,7 +378,7 @@ func genCase(t *rapid.T) Case {
 	return c
 }
 
-var prop = &ev.Prop[Case]{Sub: "alias", Quick: 12000, Thorough: 800000, Gen: genCase, Check: check}
+var prop = &ev.Prop[Case]{Sub: "alias", Quick: 100000, Thorough: 800000, Gen: genCase, Check: check}
 
 func TestRegress(t *testing.T) { prop.Regress(t) }
 func TestReplay(t *testing.T)  { prop.Replay(t) }
